@@ -191,6 +191,14 @@ mod sd {
             _ => Err("human-readable and compact formats are treated differently".to_string()),
         }
     }
+    /// `Deserialize::deserialize_in_place` into an existing value (what `Vec<T>` and derived impls use when they reuse a value):
+    /// Ok(text afterwards) or Err; the destination's state before is the caller's choice
+    pub fn de_in_place_lean(via: &'static str, input: &[u8], dest: &mut LeanString) -> Result<(), String> {
+        <LeanString as serde::Deserialize>::deserialize_in_place(Feed { via, input, hr: true }, dest).map_err(|e| e.0)
+    }
+    pub fn de_in_place_std(via: &'static str, input: &[u8], dest: &mut String) -> Result<(), String> {
+        <String as serde::Deserialize>::deserialize_in_place(Feed { via, input, hr: true }, dest).map_err(|e| e.0)
+    }
     pub fn de_std(via: &'static str, input: &[u8]) -> Result<String, String> {
         <String as serde::Deserialize>::deserialize(Feed { via, input, hr: true }).map_err(|e| e.0)
     }
@@ -316,6 +324,35 @@ pub fn codec(out_dir: &str) -> i32 {
                         }
                         if rs.is_ok() != valid {
                             spec_errors += 1;
+                        }
+                    }
+                    // into an existing value: same outcome and same text as String, whatever the destination held and however it was stored
+                    if pad_l.is_empty() && pad_r.is_empty() {
+                        static OLD_STATIC: &str = "an old static text of the destination";
+                        for via in ["bytes", "borrowed_bytes", "byte_buf", "str", "borrowed_str", "string"] {
+                            if !valid && via.contains("str") {
+                                continue;
+                            }
+                            for state in 0..5 {
+                                let keep;
+                                let (mut dl, mut ds): (LeanString, String) = match state {
+                                    0 => (LeanString::new(), String::new()),
+                                    1 => (LeanString::from("old"), String::from("old")),
+                                    2 => (LeanString::from("an old text that lives on the heap"), String::from("an old text that lives on the heap")),
+                                    3 => {
+                                        let a = LeanString::from("an old text that lives on the heap");
+                                        keep = a.clone();
+                                        let _ = &keep;
+                                        (a, String::from("an old text that lives on the heap"))
+                                    }
+                                    _ => (LeanString::from_static_str(OLD_STATIC), String::from(OLD_STATIC)),
+                                };
+                                let rl = sd::de_in_place_lean(via, &inp, &mut dl);
+                                let rs = sd::de_in_place_std(via, &inp, &mut ds);
+                                if rl.is_ok() != rs.is_ok() || (rl.is_ok() && dl.as_str() != ds.as_str()) {
+                                    finding(&format!("de_in_place_{via}"), json!(inp), json!({"std_ok":rs.is_ok(),"std_text":ds.as_bytes(),"dest_state":state}), json!({"ok":rl.is_ok(),"text":dl.as_bytes()}), &mut findings, &mut kinds);
+                                }
+                            }
                         }
                     }
                     if valid {
@@ -1256,6 +1293,36 @@ pub fn scale(out_dir: &str, thorough: bool, seed: u64) -> i32 {
                 if !ok || cp % 977 == 0 {
                     recs.push(json!({"k":"bigop","op":format!("char U+{cp:04X} on {} bytes", base.len()),"teq":ok,"len2":s.len(),"explen":t.len(),"cap2":s.capacity(),"resok":ok,"fits":false,"dA":0,"dR":0,"sameptr":true,"others":true}));
                 }
+            }
+        }
+    }
+    // ---- shortening one handle of a large shared buffer (far below a quarter of it, across every threshold): the others keep
+    // their pointer, length and bytes; the short one reads its prefix; drops and later writes behave
+    for &len in &[16 * 1024usize, 64 * 1024, 1 << 20] {
+        let text: String = "shared-".chars().cycle().take(len).collect();
+        for &cut in &[len / 2, len / 4 + 1, len / 4, len / 4 - 1, len / 8, 4096, 100, 17, 16, 1, 0] {
+            for how in ["truncate", "pop"] {
+                let a = LeanString::from(text.as_str());
+                let c = a.clone();
+                let mut b = a.clone();
+                let (ptr, cap) = (a.as_ptr() as usize, a.capacity());
+                if how == "truncate" {
+                    b.truncate(cut);
+                } else {
+                    b.truncate(cut + 2);
+                    b.pop();
+                    b.pop();
+                }
+                let mut ok = b.as_str() == &text[..cut];
+                ok &= a.as_ptr() as usize == ptr && a.capacity() == cap && a.len() == len && a.as_str() == text;
+                ok &= c.as_ptr() as usize == ptr && c.as_str() == text && a.__verif_refcount().map(|n| n == 3 || (n == 2 && !b.is_heap_allocated())).unwrap_or(false);
+                b.push('!');
+                ok &= b.len() == cut + 1 && b.as_str().ends_with('!') && a.as_str() == text;
+                drop(b);
+                ok &= a.as_str() == text && c.as_str() == text;
+                drop(a);
+                ok &= c.as_str() == text && c.__verif_refcount() == Some(1);
+                recs.push(json!({"k":"bigop","op":format!("shared-{how} {len} -> {cut}"),"teq":ok,"len2":c.len(),"explen":len,"cap2":c.capacity(),"resok":ok,"fits":false,"dA":0,"dR":0,"sameptr":true,"others":ok}));
             }
         }
     }
